@@ -9,6 +9,8 @@ Families
  (ii)  token grammar: every sequence of <= 4 (quick) / 5 (thorough) tokens over
        {type ids 1..18, two class ids, an enum id, unknown id, int8 and int32
        values at the length limits, junk}
+ (iv)  registry in effect: loadb(data, registry=...) with a whitelist / remapping
+       registry and a foreign type id at every position of container shapes
  (iii) crafted: nesting depth 10..3000, extreme / negative lengths in every
        length position, bad field counts, duplicate / unhashable keys, hellos
        with every wrong padding length; also with a tracemalloc peak bound
@@ -62,25 +64,102 @@ def _alarm(signum, frame):
 WATCHDOG_S = 10.0
 
 
-def type_tree_ok(v, depth=0):
+def type_tree_ok(v, depth=0, classes=None):
+    """classes: the classes of the registry in effect (default: the process-wide registry)"""
     if depth > 3000:
         return True
     if isinstance(v, (Serializable, SerializableEnum)):
-        if type(v) not in SerializableType.registry.values():
+        if type(v) not in (SerializableType.registry.values() if classes is None else classes):
             return False
         if isinstance(v, SerializableEnum):
-            return type_tree_ok(v.value, depth + 1)
+            return type_tree_ok(v.value, depth + 1, classes)
         if type(v).deserialize is not Serializable.deserialize:
             # a registered class with its own decoder (the handshake messages) holds what its code builds
             return True
-        return all(type_tree_ok(getattr(v, f, None), depth + 1) for f in v._fields)
+        return all(type_tree_ok(getattr(v, f, None), depth + 1, classes) for f in v._fields)
     if type(v) not in ALLOWED:
         return False
     if isinstance(v, (list, tuple, set)):
-        return all(type_tree_ok(x, depth + 1) for x in v)
+        return all(type_tree_ok(x, depth + 1, classes) for x in v)
     if isinstance(v, dict):
-        return all(type_tree_ok(k, depth + 1) and type_tree_ok(x, depth + 1) for k, x in v.items())
+        return all(type_tree_ok(k, depth + 1, classes) and type_tree_ok(x, depth + 1, classes) for k, x in v.items())
     return True
+
+
+# ---------------------------------------------------------------------------
+# family (iv): the registry IN EFFECT.  deserialize_value / loadb take registry= (load_persistant uses it to remap
+# stored type ids); with a caller-supplied registry the result may only hold classes of THAT registry, wherever the
+# foreign type id sits in the value
+
+def registry_shapes():
+    """container shapes with one hole, as functions hole -> value; depth 1"""
+    A = c13.C13One
+    return [("top", lambda h: h), ("list element", lambda h: [h]), ("second list element", lambda h: [1, h]), ("tuple element", lambda h: (h, None)),
+            ("set member", lambda h: {h}), ("map key", lambda h: {h: 1}), ("map value", lambda h: {1: h}), ("second map value", lambda h: {"a": 1, "b": h}),
+            ("class field", lambda h: A(x=h)), ("third class field", lambda h: c13.C13Three(a=1, b=None, c=h))]
+
+
+def registry_cases():
+    A, B, E = c13.C13One, c13.C13Uno, c13.C13Shape
+    shapes = registry_shapes()
+    out = []
+    for hole_name, hole in (("class", lambda: B(x=5)), ("enum", lambda: E.SQUARE)):
+        for depth in (1, 2, 3):
+            for combo in itertools.product(range(len(shapes)), repeat=depth):
+                if depth > 1 and 0 in combo:
+                    continue
+                try:
+                    v = hole()
+                    for i in reversed(combo):
+                        v = shapes[i][1](v)
+                    b = enc(v)
+                except Exception:
+                    continue   # e.g. unhashable in a set: not a value
+                out.append((hole_name, " > ".join(shapes[i][0] for i in combo), b))
+    return out
+
+
+def registry_work(arg):
+    k, n = arg
+    A, B, E = c13.C13One, c13.C13Uno, c13.C13Shape
+    viols = {}
+    total = 0
+    classes = core.Counter()
+    base = {tid: cls for tid, cls in SerializableType.registry.items() if cls not in (B, E)}
+    remap = dict(base)
+    remap[B.type_id] = A                     # "what was stored as B is A nowadays"
+    remap[E.type_id] = c13.C13Color
+    for i, (hole_name, where, b) in enumerate(registry_cases()):
+        if i % n != k:
+            continue
+        for rname, reg in (("whitelist without the foreign class", base), ("remapped ids", remap)):
+            total += 1
+            allowed = set(reg.values())
+            cls, bad, calls = probe(b, fn=lambda d, reg=reg: Serializable.loadb(d, registry=reg))
+            wit = {"family": "registry", "hole": hole_name, "where": where, "registry": rname, "hex": b.hex()}
+            classes.inc("%s:%s" % (rname.split(" ")[0], cls))
+            if bad:
+                viols.setdefault((bad[0], bad[1]), [0, wit, bad[2]])[0] += 1
+                continue
+            if cls == "value":
+                # re-run outside the meter to look at the value
+                v = Serializable.loadb(b, registry=reg)
+                try:
+                    ok = type_tree_ok(v, 0, allowed)
+                except RecursionError:
+                    ok = True
+                if not ok:
+                    pos = where.split(" > ")[-1]
+                    viols.setdefault(("type-tree", "decoding with a caller-supplied registry returned an instance of a class that registry does not contain (foreign id in a %s)" % pos),
+                                     [0, wit, "%s, foreign %s at %s: %s" % (rname, hole_name, where, safe_repr(v))])[0] += 1
+                elif rname.startswith("whitelist"):
+                    viols.setdefault(("type-tree", "a type id that the registry in effect does not contain was decoded instead of refused"),
+                                     [0, wit, "%s at %s decoded to %s" % (hole_name, where, safe_repr(v))])[0] += 1
+    return total, dict(classes), viols, 0.0
+
+
+def registry_work_init(tier):
+    work_init(tier)
 
 
 def safe_repr(x):
@@ -407,6 +486,7 @@ def run(tier, seed):
     classes = core.Counter()
     acc = {}
     maxratio = 0.0
+    res = list(res) + list(core.pmap("checks.c14", "registry_work", [(k, 16) for k in range(16)], initargs=(tier,)))
     for t, counts, viols, mr in res:
         total += t
         maxratio = max(maxratio, mr)
@@ -421,12 +501,12 @@ def run(tier, seed):
     rep.coverage = {
         "evaluations": total, "distinct_nontrivial": sum(v for k, v in classes.items() if k == "value" or k.endswith(":value")),
         "rule": "families: all truncations + bit flips of every C13 encoding <=36 (quick) / 64 (thorough) bytes; every token sequence of length <=%d over %d tokens; truncations/bit flips/padding edits of the three handshake messages "
-                "through loadb and the real _recv* entry points; %d crafted inputs (nesting, extreme lengths, bad field counts) with a tracemalloc bound. non-trivial = inputs that decoded to a value (all others raised)" % (
+                "through loadb and the real _recv* entry points; %d crafted inputs (nesting, extreme lengths, bad field counts) with a tracemalloc bound; registry in effect: a foreign class / enum id at every position of every container shape of depth <=3, decoded with a whitelist registry and with a remapping registry. non-trivial = inputs that decoded to a value (all others raised)" % (
                     4 if tier == "quick" else 5, len(tokens()), len(crafted())),
         "outcome_classes": dict(classes), "max_calls_per_byte_observed": round(maxratio, 2),
         "bounds": {"calls": "%d*len+%d" % (CALLS_PER_BYTE, CALLS_BASE), "memory(crafted only)": "%d*len+%d" % (MEM_PER_BYTE, MEM_BASE)},
         "exhaustive": True,
-        "samples": _samples(),
+        "samples": core.safe_samples(_samples),
     }
     rep.assumptions = ["resource use measured in interpreter call events and tracemalloc peak, not wall time",
                        "RecursionError counts as an ordinary exception (it is an Exception subclass)"]
@@ -435,6 +515,12 @@ def run(tier, seed):
 
 def replay(witness):
     work_init("quick")
+    if witness.get("family") == "registry":
+        out = []
+        for k in range(16):
+            t, c, viols, mr = registry_work((k, 16))
+            out += [core.Violation(kk[0], kk[1], v[1], v[2]) for kk, v in viols.items() if v[1]["hex"] == witness["hex"] and v[1]["registry"] == witness["registry"]]
+        return out
     if "hex" in witness and witness.get("family") in ("small", "tokens", "handshake"):
         cls, bad, calls = probe(bytes.fromhex(witness["hex"]))
     elif witness.get("family") == "handshake-entry":
